@@ -870,6 +870,97 @@ def check_bplane(case):
     return dict(nt=True, cls=cls + past_classes(past), ratio=worst[0])
 
 
+# ------------------------------------------------------------------ wrappers around the helpers
+
+HELD_IN = ["EME2000", "TEME", "MOD", "TOD", "GCRF", "G50", "ITRF"]
+
+
+@st.composite
+def wrappers_case(draw):
+    kind = draw(st.sampled_from(["orb2ltan", "orb2ltan", "orb2ltan", "beta_limit", "sso_frozen"]))
+    el = draw(go.elements(hyperbolic=False, emax_ell=0.9, bodies=("Earth",) if kind != "beta_limit" else BP_BODIES))
+    el["i"] = min(max(el["i"], 0.05), math.pi - 0.05)
+    frame = draw(st.sampled_from(HELD_IN))
+    return dict(kind=kind, el=el, t=draw(instants_us(2000, 2030)), scale=draw(st.sampled_from(SCALES)), frame=frame,
+                form=draw(st.sampled_from(["cartesian", "keplerian", "equinoctial"])) if frame != "ITRF" else "cartesian",
+                type=draw(st.sampled_from(["mean", "true"])), a_sso=draw(go.uniform(6.6e6, 8.2e6)),
+                propagator=draw(st.booleans()))
+
+
+def check_wrappers(case):
+    from beyond.orbits import StateVector
+
+    el = case["el"]
+    kind = case["kind"]
+    date = mkdate(case["t"])
+    ldate = relabel(date, case.get("scale"))
+    k = 1 / (1 - el["e"])
+    if kind == "orb2ltan":
+        from beyond.constants import Earth
+        from beyond.utils.ltan import ltan2raan, orb2ltan, raan2ltan
+
+        # the orbit is defined by its elements in EME2000; it is handed over HELD in another frame / form
+        cart = tb.kep2cart(el["a"], el["e"], el["i"], el["raan"], el["argp"], el["nu"], Earth.mu)
+        orb = StateVector(cart, ldate, "cartesian", "EME2000")
+        if case["frame"] != "EME2000":
+            orb = orb.copy(frame=case["frame"])
+        if case["form"] != "cartesian":
+            orb = orb.copy(form=case["form"])
+        if case["propagator"]:
+            orb = orb.as_orbit("Kepler")
+        before = np.array(orb.base, float)
+        lt = float(orb2ltan(orb, case["type"]))
+        if not np.array_equal(np.asarray(orb.base, float), before) or orb.frame.name != case["frame"]:
+            raise Violation("orb2ltan-input-mutated", "orb2ltan() changed its argument")
+        if not (math.isfinite(lt) and 0 <= lt < 86400):
+            raise Violation("orb2ltan-range", f"orb2ltan = {lt}")
+        # node read back from a state: eps kappa / sin i; Earth orientation from a single-float Julian date: 4e-9 rad
+        tol = 2e-8 + 1e-9 * k / math.sin(el["i"])
+        want = float(raan2ltan(date, el["raan"], case["type"]))        # (raan2ltan itself is decided by the ltan facet)
+        d = abs(wrap_day(lt - want)) * math.pi / 43200
+        back = float(ltan2raan(date, lt, case["type"]))
+        d2 = abs(tb.angdiff(back, el["raan"]))
+        if d > tol or d2 > tol:
+            raise Violation("orb2ltan", f"orbit with EME2000 node {el['raan']!r} rad, held in {case['frame']} / {case['form']}: "
+                            f"orb2ltan = {lt!r} s, LTAN of its EME2000 node = {want!r} s; ltan2raan(orb2ltan) = {back!r} rad "
+                            f"(off by {max(d, d2):.3g} rad, tol {tol:.3g})")
+        return dict(nt=True, cls=[kind, f"held:{case['frame']}", f"form:{case['form']}", case["type"]]
+                    + date_classes(case["t"], case.get("scale", "UTC")), ratio=max(d, d2) / tol)
+    if kind == "beta_limit":
+        from beyond.dates import Date
+        from beyond.utils.beta import beta_limit
+
+        body = el["body"]
+        mu = mu_of(body)
+        cart = tb.kep2cart(el["a"], el["e"], el["i"], el["raan"], el["argp"], el["nu"], mu)
+        orb = StateVector(cart, Date(2020, 1, 1), "cartesian", frame_for(body)).copy(form=case["form"])
+        from beyond import constants
+
+        R = getattr(constants, body).r
+        r = float(np.linalg.norm(cart[:3]))
+        got = float(beta_limit(orb))
+        want = math.asin(R / r)       # half-angle of the body seen from the spacecraft = beta below which it is eclipsed
+        tol = 1e-9 * k / math.sin(el["i"]) + 1e-9 + 1e-15 / max(math.cos(want), 1e-8)
+        if not math.isfinite(got) or abs(got - want) > tol:
+            raise Violation("beta_limit", f"beta_limit = {got!r}, asin(R / r) = {want!r} (body {body}, r = {r:.1f} m)")
+        return dict(nt=True, cls=[kind, f"body:{body}", f"form:{case['form']}"], ratio=abs(got - want) / tol)
+    # sun-synchronous frozen orbit: a fixed point of  i = sso(a, e),  e = -J3 R sin i / (2 J2 a),  perigee at 90 deg
+    from beyond.constants import Earth
+    from beyond.utils.leo import frozen, sso, sso_frozen
+
+    a = case["a_sso"]
+    e, i, w = (float(x) for x in sso_frozen(a))
+    e_ref = -Earth.J3 * Earth.r * math.sin(i) / (2 * Earth.J2 * a)
+    i_ref = float(sso(a=a, e=e))
+    ef, wf = (float(x) for x in frozen(a, i))
+    bad = (abs(e - e_ref) > 1e-11 or abs(i - i_ref) > 1e-9 or abs(w - math.pi / 2) > 1e-15 or abs(ef - e_ref) > 1e-15
+           or abs(wf - math.pi / 2) > 1e-15 or not 0 < e < 0.01)
+    if bad:
+        raise Violation("sso_frozen", f"sso_frozen({a!r}) = ({e!r}, {i!r}, {w!r}); frozen eccentricity for that i: {e_ref!r}, "
+                        f"sso inclination for that e: {i_ref!r}")
+    return dict(nt=True, cls=[kind], ratio=max(abs(e - e_ref) / 1e-11, abs(i - i_ref) / 1e-9))
+
+
 FACETS = [
     Facet("lambert_arrival", lambda s, t: lambert_case(), check_lambert, setup=setup,
           rule="transfer angle in (20, 340) deg and more than 5 deg away from 180 deg",
@@ -885,6 +976,9 @@ FACETS = [
           quick=(2, 600), thorough=(4, 6000)),
     Facet("beta", lambda s, t: beta_case(), check_beta, setup=setup,
           rule="every case", quick=(4, 500), thorough=(8, 8000)),
+    Facet("wrappers", lambda s, t: wrappers_case(), check_wrappers, setup=setup,
+          rule="every case: orb2ltan (orbit held in a drawn frame / form), beta_limit, sso_frozen / frozen",
+          quick=(4, 300), thorough=(8, 4000)),
     Facet("bplane", lambda s, t: bplane_case(), check_bplane, setup=setup,
           rule="every case: S, T, R, B, e, h, theta against the perifocal closed forms",
           quick=(4, 800), thorough=(8, 10000)),
